@@ -263,6 +263,26 @@ def splitter_actor(ctx) -> None:
     ctx.check(pair_order, 'C12.split-actor', sp, 'the splitter emits, per (train, test) index pair, the train part first and the test part second (ports 2k / 2k+1)', sp.node, key='split:order')
     tr = prog.func(f'{SPLIT}:CVFoldable.train')
     ctx.check('self._indices' in core.src(tr.node) and 'split(' in core.src(tr.node), 'C12.split-actor', tr, 'fold indices are fixed at training time and reused for features and labels', tr.node, key='split:train')
+    f, l = tr.param_names[1:3]
+    shared.stmt_under(ctx, 'C12.split-actor', tr, f'self._indices = tuple(self._crossvalidator.split({f}, {l}, self._groups_extractor({f}) if self._groups_extractor else None))', [], 'training fixes the fold indices from the cross-validator over (features, labels, groups)', 'split:train-indices')
+    ap = prog.func(f'{SPLIT}:CVFoldable.apply')
+    x = ap.param_names[1]
+    rets = [r for r in core.walk_local(ap.node) if isinstance(r, ast.Return)]
+    ctx.check(len(rets) == 1 and core.src(rets[0].value) == f'self.split({x}, self._indices)', 'C12.split-actor', ap, 'every application cuts the input by the indices fixed at training (features and labels get the same folds)', ap.node, key='split:apply')
+    rs = [r for r in core.walk_local(ap.node) if isinstance(r, ast.Raise)]
+    ctx.check(len(rs) == 1 and cfg.cguards(rs[0], ap.node) in ([('self._indices', False)], [('self._indices is None', True)]), 'C12.split-actor', ap, 'an untrained splitter refuses to split', ap.node, key='split:untrained')
+    base = prog.cls(f'{SPLIT}:CVFoldable')
+    nsub = 0
+    for ci in prog.subclasses(base):
+        for m, want in (('train', 'super().train({0}, {1})'), ('apply', 'return super().apply({0})')):
+            if m not in ci.methods:
+                continue
+            nsub += 1
+            fn = prog.func(f'{ci.ref}.{m}')
+            body = [core.src(st) for st in fn.body if not (isinstance(st, ast.Expr) and isinstance(st.value, ast.Constant))]
+            ps = [p for p in fn.param_names if p != 'self']
+            ctx.check(body == [want.format(*ps)], 'C12.split-actor', fn, f'{ci.qual}.{m} only adapts the payload and delegates to the base implementation with its own arguments ({body})', fn.node, key=f'{ci.qual}.{m}:delegates')
+    ctx.floor('C12.split-subclasses', nsub, 2)
 
 
 def run(ctx) -> None:
